@@ -16,6 +16,8 @@ import time
 from concurrent.futures import ThreadPoolExecutor
 
 VERIF = os.path.dirname(os.path.dirname(os.path.abspath(__file__)))
+# development only: evidence/replay of a side run against another tree go elsewhere
+OUTROOT = os.environ.get("VERIF_OUTROOT", VERIF)
 REPO = os.environ.get("VERIF_REPO", "/repo")
 SCRATCH = os.path.join(VERIF, "scratch", str(os.getpid()))
 ANSI = re.compile(r"\x1b\[[0-9;]*m")
@@ -224,7 +226,7 @@ def read_trace(path):
 
 
 def run_bloch(binary, source, args=(), env=None, trace=False, state=None, timeout=30,
-              keep=False, fname="prog.bloch", extra_files=None, cwd_is_dir=True):
+              keep=False, fname="prog.bloch", extra_files=None, cwd_is_dir=True, **run_kw):
     """Write `source` into a private directory, run the CLI on it, return (Result, events, qasm, dir)."""
     d = scratch_dir("run")
     path = os.path.join(d, fname)
@@ -242,7 +244,7 @@ def run_bloch(binary, source, args=(), env=None, trace=False, state=None, timeou
         e["BLOCH_VERIF_TRACE"] = tpath
     if state:
         e["BLOCH_VERIF_STATE"] = state
-    r = run([binary] + list(args) + [path], env=e, cwd=d, timeout=timeout)
+    r = run([binary] + list(args) + [path], env=e, cwd=d, timeout=timeout, **run_kw)
     events = read_trace(tpath) if trace else []
     qasm = None
     qp = os.path.join(d, os.path.splitext(fname)[0] + ".qasm")
@@ -333,7 +335,7 @@ class Ctx:
             if v:
                 v["count"] += 1
                 return
-            rdir = os.path.join(VERIF, "replay", self.prop, key)
+            rdir = os.path.join(OUTROOT, "replay", self.prop, key)
             self.violations[key] = dict(what=what, replay=rdir, count=1)
             if self.replaying:
                 return
@@ -377,11 +379,11 @@ class Ctx:
         ev = dict(property_id=self.prop, tier=self.tier, seed=self.seed, level=self.level,
                   coverage=cov, assumptions=self.assumptions, wall_s=round(wall, 2),
                   violations=len(unknown))
-        os.makedirs(os.path.join(VERIF, "evidence"), exist_ok=True)
-        tmp = os.path.join(VERIF, "evidence", self.prop + ".json.tmp")
+        os.makedirs(os.path.join(OUTROOT, "evidence"), exist_ok=True)
+        tmp = os.path.join(OUTROOT, "evidence", self.prop + ".json.tmp")
         with open(tmp, "w") as f:
             json.dump(ev, f, indent=1, default=str)
-        os.replace(tmp, os.path.join(VERIF, "evidence", self.prop + ".json"))
+        os.replace(tmp, os.path.join(OUTROOT, "evidence", self.prop + ".json"))
         verdict = "violated" if unknown else ("inconclusive" if self.inconclusive else "held")
         print("[%s] %s tier=%s seed=%d evaluations=%d distinct=%d wall=%.1fs monitors=%s" %
               (self.prop, verdict, self.tier, self.seed, self.evaluations,
